@@ -386,8 +386,9 @@ def h_select_fp(sx, cfg):
             return
         sx.check("vertex-cornered-subregions-accepted", True)
         d = mesh.region.dims[ax]
-        for j0 in range(n[ax]):
-            for j1 in range(j0, n[ax]):
+        pairs = [tuple(x) for x in cfg["ranges"]] if cfg.get("ranges") else [(j0, j1) for j0 in range(n[ax]) for j1 in range(j0, n[ax])]
+        for j0, j1 in pairs:
+            if True:
                 tag = f"[{j0}:{j1}]"
                 try:
                     r = mesh.sel(**{d: (float(cells[j0]), float(cells[j1]))})
@@ -417,6 +418,9 @@ def h_persist_json(sx, cfg):
     dims = DIMSETS[cfg.get("dims", "default")][nd]
     mesh0, pmin, e = sym_mesh(sx, n, dims=dims, units=["nm"] * nd, flip=False)
     c = [e[a] / n[a] for a in range(nd)]
+    for a in range(nd):
+        # offsets up to 1000 edge lengths (beyond that the region's relative tolerance exceeds a cell, see h_attach_sym)
+        sx.assume(sx.And(pmin[a] <= 1000 * e[a], pmin[a] >= -1000 * e[a], c[a] >= 1e-9))
     subs = {nm: df.Region(p1=_lattice_box(pmin, c, lo, hi)[0], p2=_lattice_box(pmin, c, lo, hi)[1]) for nm, lo, hi in layout}
     mesh = df.Mesh(region=mesh0.region, n=n, subregions=subs)
     fresh = df.Mesh(region=mesh0.region, n=n)
@@ -438,6 +442,44 @@ def h_persist_json(sx, cfg):
         s = fresh.subregions[nm]
         sx.check(f"{nm}-dims-units", tuple(s.dims) == tuple(dims) and tuple(s.units) == ("nm",) * nd)
     sx.check("source-kept", list(mesh.subregions) == [x[0] for x in layout])
+    # loading into other meshes: the setter's validation applies (inside, whole cells, on the lattice; the mesh's names and units)
+    other_dims = tuple(reversed(DIMSETS["renamed" if cfg.get("dims", "default") == "default" else "default"][nd]))
+    renamed = df.Mesh(region=df.Region(p1=pmin, p2=[pmin[a] + e[a] for a in range(nd)], dims=other_dims, units=["um"] * nd), n=n)
+    keep_lo, keep_hi = layout[0][1], layout[0][2]
+    prev = df.Region(p1=_lattice_box(pmin, c, keep_lo, keep_hi)[0], p2=_lattice_box(pmin, c, keep_lo, keep_hi)[1])
+    # a mesh that covers only the first cell layer along axis 0 and already holds a subregion: most saved boxes stick out
+    small_n = tuple([1] + list(n[1:]))
+    small = df.Mesh(p1=pmin, p2=[pmin[0] + c[0]] + [pmin[a] + e[a] for a in range(1, nd)], n=small_n,
+                    subregions={"kept": df.Region(p1=pmin, p2=[pmin[0] + c[0]] + [pmin[a] + e[a] for a in range(1, nd)])})
+    sticks_out = any(hi[0] > 1 for _, lo, hi in layout)
+    if sx.sym:
+        with stubs.json_sidecar_stub(dio):
+            mesh.save_subregions("field.omf")
+            renamed.load_subregions("field.omf")
+            try:
+                small.load_subregions("field.omf")
+                refused = False
+            except ValueError:
+                refused = True
+    else:
+        with tempfile.TemporaryDirectory() as d:
+            fn = os.path.join(d, "field.omf")
+            mesh.save_subregions(fn)
+            renamed.load_subregions(fn)
+            try:
+                small.load_subregions(fn)
+                refused = False
+            except ValueError:
+                refused = True
+    for nm in renamed.subregions:
+        s_ = renamed.subregions[nm]
+        sx.check(f"other-mesh-{nm}-carries-its-names-units", tuple(s_.dims) == tuple(other_dims) and tuple(s_.units) == ("um",) * nd)
+    sx.check("other-mesh-names", list(renamed.subregions) == [x[0] for x in layout])
+    if sticks_out:
+        sx.check("sticking-out-side-car-refused", refused)
+        sx.check("previous-kept-after-refusal", list(small.subregions) == ["kept"])
+    else:
+        sx.check("fitting-side-car-replaces", (not refused) and list(small.subregions) == [x[0] for x in layout])
 
 
 LAYOUTS = {
@@ -497,6 +539,11 @@ def tasks(tier):
     if not q:
         fp += [dict(n=[12], pmin=[-0.3], edges=[3.6], layout=[("s", [k], [k + 3])], axis=0) for k in range(0, 9, 2)]
         fp += [dict(n=[3, 9, 2], pmin=[0, 0, 0], edges=[3e-9, 2.7e-9, 1e-9], layout=[("s", [0, 2, 0], [3, 7, 1])], axis=1)]
+    # long axes: an overlap of a single cell at either end of the range counts (tolerances must not grow with the number of cells)
+    fp.append(dict(n=[3000], pmin=[0.0], edges=[3000.0], layout=[("s", [10], [11]), ("t", [500], [503]), ("u", [2999], [3000])], axis=0,
+                   ranges=[[0, 10], [10, 10], [11, 499], [11, 500], [502, 2999], [503, 2998], [0, 2999], [2999, 2999]]))
+    fp.append(dict(n=[1500, 2], pmin=[-1.0, 0.0], edges=[3.0, 1.0], layout=[("s", [0, 0], [1, 2]), ("t", [749, 1], [751, 2])], axis=0,
+                   ranges=[[0, 0], [1, 748], [1, 749], [750, 1499], [751, 1499]]))
     for g in fp:
         t.append(dict(harness="h_select_fp", cfg=g))
     for nd in ((1, 2, 3) if q else (1, 2, 3, 4)):
